@@ -13,14 +13,16 @@ CONFIG = {
     "modelled": ["cache.GetBid", "cache.getBidByNameCore", "cache.getBidByClassCore", "cache.FindBoardIdxByName", "cache.FindBoardIdxByClass",
                  "cache.cmpBoardByClass", "cache.FindBoardAutoCompleteStartIdx", "cache.findBoardClosetKeyword", "ptttype.BoardTitle_t.BoardClass",
                  "ptttype.Bid.IsValid", "ptt.LoadGeneralBoards", "ptt.LoadAutoCompleteBoards", "ptt.loadGeneralBoardStat / loadAutoCompleteBoardStat (vacated / group / prefix tests)",
-                 "bbs.LoadGeneralBoards", "bbs.LoadAutoCompleteBoards", "ptt.LoadGeneralBoardDetails", "bbs.LoadGeneralBoardDetails",
+                 "bbs.LoadGeneralBoards", "bbs.LoadAutoCompleteBoards", "ptt.LoadGeneralBoardDetails", "bbs.LoadGeneralBoardDetails", "ptt.LoadFullClassBoards", "bbs.LoadFullClassBoards (next_bid)",
+                 "ptt.loadClassBoardStat (vacated / group test)", "ptt.LoadClassBoards + cache.ResolveBoardGroup (on fresh child links: the chain of non-vacated boards with Gid = class in sorted order, ChildCount+5 cap)", "bbs.LoadClassBoards",
                  "bbs.NewBoardSummaryFromRaw / NewBoardDetailFromRaw (IdxByName, IdxByClass: the class column as stored, blank padding included)", "bbs.loadGeneralBoardsToStartIdx", "bbs.loadAutoCompleteBoardsToStartIdx",
                  "bbs.Serialize/DeserializeBoardIdxByNameStr / ByClassStr (cursor round-trip, '@' refusal)"],
     "assumptions": [
         "the property's domain is the board tables the system can produce (C12): names of letters/digits/_-. pairwise distinct up to case (DistinctNames; vacated slots may repeat), title byte 4 a blank (ClassOK), no '@'/0xff in names (NoAtFF); tables outside it are generated, compared with the model and their deviations recorded as notes (dup-name page walks never end; a 5-byte class breaks the by-class search; names with '@' defeat the descending successor keyword)",
         "BSorted[byName]/[byClass] are sorted permutations of [0, BNumber) (checked on every reload; sort.Sort trusted)",
-        "listings are driven as SYSOP with empty title/keyword filters and page sizes >= 1; page sizes <= 0 (makeslice / summaries[-1] panics, a walk that never advances) are compared with the model but not judged; LoadClassBoards / LoadFullClassBoards (child links) are not covered",
+        "listings are driven as SYSOP with empty title/keyword filters and page sizes >= 1; page sizes <= 0 (makeslice / summaries[-1] panics, a walk that never advances) are compared with the model but not judged; the class listings are driven on freshly reloaded tables (child links zero); board creation itself (CreateBoard, which puts a new class into the last slot) is property C12 — the states it produces (a class in the last slot, in every slot) are enumerated directly; a board that is its own Gid is not judged",
         "keywords with NUL bytes have no defined answer: compared with the model only",
+        "LoadClassBoards is judged on tables that do not change between requests (every sub-class, whatever ChildCount was stored, the same on every request: key list:children+cap); a cache write that neither re-sorts nor re-resolves (cache.ResetBoard without SortBCache) is outside the histories driven",
         "bbs.LoadGeneralBoardDetails (after fix 6f287ee) lists every non-vacated slot (no group/permission filter); its page walk is judged on all in-domain tables, vacated slots included (keys walk:details-name+vacated, walk:details-class+vacated)",
     ],
 }
